@@ -165,6 +165,17 @@ def rec_star(seed):
     if rng.random() < 0.4:
         mask = np.zeros(data.shape, dtype=bool); mask[:, 40:] = True
     thr = rng.choice([5.0, 15.0, 400.0])
+    if seed % 5 == 0:
+        # a background-subtracted noise field measured at supplied positions: weak, ragged "sources" with negative pixels in the kernel
+        data = np.random.default_rng(seed).normal(0.0, 1.0, data.shape)
+        which = rng.choice(['dao', 'iraf'])
+        use_xy = True
+        xy = np.array([[rng.uniform(3, data.shape[1] - 4), rng.uniform(3, data.shape[0] - 4)] for _ in range(60)])
+        sharplo, sharphi, roundlo, roundhi = 0.2, 1.0, -1.0, 1.0
+        brightest = peakmax = None
+        minsep = 0.0
+        thr = rng.choice([0.3, 0.8])
+        mask = None
     out = []
 
     def mk(br):
@@ -201,7 +212,7 @@ def rec_star(seed):
     # peaks / supplied coordinates the centroids must belong to
     if use_xy:
         pk = [[fk(a), fk(b)] for a, b in xy]
-        khx = khy = fk(3.6)
+        khx = khy = fk(3.1)          # 5x5 kernel around the nearest pixel of the supplied position: 2.5 + 0.5 (+ 0.1 slack)
     else:
         pk = None
         khx = khy = fk(4.6 if which != 'star' else 3.6)
